@@ -26,6 +26,15 @@ var solvers = []SolverSpec{
 	{"cvc5-1.0", []string{"cvc5", "--lang=smt2", "--produce-models"}},
 }
 
+// altSolvers: other configurations of the installed solvers, raced in the
+// quick tier's second stage and in the retry ladder (z3's legacy arithmetic
+// core decides some quantified integer goals in a fraction of a second that
+// the default core needs half a minute for, and vice versa). They are not
+// counted as independent solvers in the thorough tier.
+var altSolvers = []SolverSpec{
+	{"z3-5.1.0/arith2", []string{"z3-new", "-smt2", "smt.arith.solver=2"}},
+}
+
 func (o *Obligation) smt(extra []*Term, withValues bool) string {
 	st := newSymtab()
 	for _, a := range o.Assume {
@@ -173,11 +182,12 @@ func (d *Discharger) discharge(o *Obligation, ar *Arith) {
 		r := runSolver(ctx, solvers[0], fname, quickT)
 		results = append(results, r)
 		if r.status != "unsat" && r.status != "sat" && !o.Cover && !o.MustFail {
-			ch := make(chan solveResult, 2)
-			for _, s := range solvers[1:] {
+			stage2 := append(append([]SolverSpec(nil), solvers[1:]...), altSolvers...)
+			ch := make(chan solveResult, len(stage2))
+			for _, s := range stage2 {
 				go func(s SolverSpec) { ch <- runSolver(ctx, s, fname, d.timeout) }(s)
 			}
-			for range solvers[1:] {
+			for range stage2 {
 				r2 := <-ch
 				results = append(results, r2)
 				if r2.status == "unsat" || r2.status == "sat" {
@@ -206,11 +216,12 @@ func (d *Discharger) discharge(o *Obligation, ar *Arith) {
 			}
 		}
 		if !definitive {
-			ch := make(chan solveResult, 2)
-			for _, s := range solvers[:2] {
+			ladder := append(append([]SolverSpec(nil), solvers[:2]...), altSolvers...)
+			ch := make(chan solveResult, len(ladder))
+			for _, s := range ladder {
 				go func(s SolverSpec) { ch <- runSolver(ctx, s, fname, 6*d.timeout) }(s)
 			}
-			for range solvers[:2] {
+			for range ladder {
 				r2 := <-ch
 				results = append(results, r2)
 				if r2.status == "unsat" || r2.status == "sat" {
